@@ -1101,8 +1101,8 @@ def _(a, T):
 
 RULE = (
     "case = history of 1..12 calls; a call is {e: catalogue entry id, a: plain-JSON arguments (hex for bytes, '0101' for bits, ints)}; the "
-    "argument objects are built inside the forked child.  Hypothesis draws histories of six kinds (random mix; calls of one group = module family; "
-    "one entry with different arguments/lengths; curated (writer, reader) pairs with noise in between; a history whose last call repeats an earlier "
+    "argument objects are built inside the forked child.  Hypothesis draws histories of seven kinds (random mix; calls of one group = module family; "
+    "one entry with different arguments/lengths; one entry with one argument changed per step; curated (writer, reader) pairs with noise in between; a history whose last call repeats an earlier "
     "one; constructors with default arguments mixed with parsers) plus the complete set of ordered pairs of canonical calls (pairs sub-check).  "
     "Non-trivial: >= 2 calls of the same group in one history (the later one is compared against its run in a fresh state); distinct by hash of the "
     "history.  Clock sub-check: the same call lists evaluated in two fresh interpreters (clock pinned 400 days apart, different random streams)."
@@ -1315,10 +1315,29 @@ def history_strategy(max_len: int = 12):
     def kind(name, s):
         return s.map(lambda calls: {"kind": name, "calls": calls[:max_len]})
 
+    def perturbed(e):
+        """one entry: a base call, then calls that differ from their predecessor in exactly one argument"""
+        specs = CATALOGUE[e].args
+        if not specs:
+            return st.just([{"e": e, "a": {}}] * 2)
+        one = st.sampled_from(sorted(specs)).flatmap(lambda n: st.tuples(st.just(n), specs[n].strat()))
+
+        def build(t):
+            base, changes = t
+            calls, cur = [{"e": e, "a": base}], dict(base)
+            for n, v in changes:
+                cur = dict(cur)
+                cur[n] = v
+                calls.append({"e": e, "a": cur})
+            return calls
+
+        return st.tuples(args_strategy(CATALOGUE[e]), st.lists(one, min_size=1, max_size=4)).map(build)
+
     return st.one_of(
         kind("random", st.lists(any_call, min_size=1, max_size=max_len)),
         kind("group", st.sampled_from(sorted(groups)).flatmap(lambda g: st.lists(group_call[g], min_size=2, max_size=min(10, max_len)))),
         kind("same_entry", st.sampled_from(ids).flatmap(lambda e: st.lists(call_of[e], min_size=2, max_size=5))),
+        kind("same_entry_one_argument_changed", st.sampled_from(ids).flatmap(perturbed)),
         kind("pair", st.sampled_from(PAIRS).flatmap(lambda wr: st.tuples(st.lists(call_of[wr[0]], min_size=1, max_size=2), st.lists(any_call, max_size=2), call_of[wr[1]]).map(lambda t: t[0] + t[1] + [t[2]]))),
         kind("repeat", st.tuples(st.lists(any_call, min_size=1, max_size=6), st.integers(0, 5)).map(lambda t: t[0] + [t[0][t[1] % len(t[0])]])),
         kind("defaults", st.lists(st.one_of(default_call, default_call, any_call), min_size=2, max_size=8)),
@@ -1381,7 +1400,7 @@ def drv_pairs(ctx: Ctx, sub: SubCheck):
     canonical call of every entry of the other groups in one child; a difference is re-examined as an exact pair)."""
     _self_check()
     import_library()
-    calls = _canon(ctx.pick(2, 4))
+    calls = _canon(ctx.pick(3, 4))
     first = {}
     for c in calls:
         first.setdefault(c["e"], c)
@@ -1411,11 +1430,29 @@ def drv_pairs(ctx: Ctx, sub: SubCheck):
                     t.case(sub.name, cls="failing")
                 readers = readers[i:] if i else []
 
+    def one_argument_changed(w):
+        """calls that differ from w in exactly one argument (value taken from the entry's next generated variant)"""
+        e = CATALOGUE[w["e"]]
+        gen = [c for c in canonical_calls(e, 2) if c["a"] not in e.canon]
+        if len(gen) < 2 or _key(w) != _key(gen[0]):
+            return []
+        out = []
+        for n in sorted(e.args):
+            if gen[1]["a"][n] != w["a"][n]:
+                a = dict(w["a"])
+                a[n] = gen[1]["a"][n]
+                out.append({"e": w["e"], "a": a})
+        return out if len(out) > 1 else []
+
     def work(chunk, t: Tally):
         for w in chunk:
             rs = calls if not ctx.quick else [c for c in calls if grp(c) == grp(w)]
             for r in rs:
                 exact(w, r, t)
+            for v in one_argument_changed(w):
+                for pair in ((w, v), (v, w)):
+                    ctx.run_case(sub.name, oracle_history, {"kind": "canonical_pair", "calls": list(pair)}, t)
+                    t.case(sub.name, nontrivial=True, cls="pair_same_entry_one_argument_changed")
             if ctx.quick and first[w["e"]] is w:
                 sweep(w, [c for e, c in sorted(first.items()) if grp(c) != grp(w)], t)
             t.sample(sub.name, {"kind": "canonical_pair", "calls": [w, rs[len(rs) // 2]]})
@@ -1426,7 +1463,7 @@ def drv_pairs(ctx: Ctx, sub: SubCheck):
     ctx.tally.extra["canonical_calls"] = len(calls)
     ctx.tally.extra["canonical_pair_space"] = (
         "every ordered pair of the canonical calls (directed argument sets + <=4 generated variants per entry), one child per pair" if not ctx.quick else
-        "every ordered pair of canonical calls (directed + <=2 generated variants per entry) inside a group, one child per pair; across groups one sweep per entry")
+        "every ordered pair of canonical calls (directed + <=3 generated variants per entry) inside a group, one child per pair; across groups one sweep per entry")
     ctx.tally.notes.append("pairs: exhaustive over ordered pairs of the fixed canonical calls only (not over arguments)")
 
 
